@@ -114,3 +114,78 @@ fn c04_label_composed_cmp() {
     assert!(a.lowercase_composed_cmp(b) == lex_cmp(&la[..na], &lb[..nb], false));
     kani::cover!(a.composed_cmp(b) != a.cmp(b), "composed order differs from canonical order");
 }
+
+// ------------------------------------------------------------ CharStr etc.
+use domain::base::charstr::CharStr;
+use domain::base::cmp::CanonicalOrd;
+use domain::base::{Serial, Ttl};
+
+fn any_charstr<const N: usize>(buf: &[u8; N]) -> &CharStr<[u8]> {
+    let n: usize = kani::any();
+    kani::assume(n <= N);
+    CharStr::from_slice(&buf[..n]).unwrap()
+}
+
+// @funcs: CharStr::{from_slice, eq, cmp, partial_cmp, hash, canonical_cmp}
+// @bound: all triples of character strings of 0..=3 symbolic octets: cmp = case-insensitive lexicographic order, consistent with ==, antisymmetric, transitive; equal => same hash stream; canonical_cmp = bytewise order of the wire form (length octet + octets, case preserved)
+#[kani::proof]
+#[kani::unwind(6)]
+fn c04_charstr_laws_3() {
+    let (ba, bb, bc): ([u8; 3], [u8; 3], [u8; 3]) = (kani::any(), kani::any(), kani::any());
+    let a = any_charstr(&ba);
+    let b = any_charstr(&bb);
+    let c = any_charstr(&bc);
+    let ab = a.cmp(b);
+    assert!(ab == lex_cmp(a.as_slice(), b.as_slice(), true));
+    assert!((a == b) == (ab == Ordering::Equal));
+    assert!(b.cmp(a) == ab.reverse());
+    assert!(a.partial_cmp(b) == Some(ab));
+    let bc_ = b.cmp(c);
+    if ab != Ordering::Greater && bc_ != Ordering::Greater {
+        assert!(a.cmp(c) != Ordering::Greater);
+    }
+    if a == b {
+        let mut ha = RecHasher::<8>::new();
+        let mut hb = RecHasher::<8>::new();
+        a.hash(&mut ha);
+        b.hash(&mut hb);
+        assert!(ha.same(&hb));
+    }
+    // canonical order = order of the wire forms
+    let mut wa = [0u8; 4];
+    let mut wb = [0u8; 4];
+    wa[0] = a.len() as u8;
+    wb[0] = b.len() as u8;
+    let mut i = 0;
+    while i < a.len() {
+        wa[i + 1] = a.as_slice()[i];
+        i += 1;
+    }
+    let mut i = 0;
+    while i < b.len() {
+        wb[i + 1] = b.as_slice()[i];
+        i += 1;
+    }
+    assert!(a.canonical_cmp(b) == lex_cmp(&wa[..a.len() + 1], &wb[..b.len() + 1], false));
+    kani::cover!(a == b && a.canonical_cmp(b) != Ordering::Equal, "equal but canonically distinct (case)");
+}
+
+// @funcs: Serial::canonical_cmp, Ttl::canonical_cmp/cmp, Serial::compose
+// @bound: all pairs of 32-bit values: canonical order = order of the 4-octet big-endian wire forms (a total order, unlike RFC 1982 comparison)
+#[kani::proof]
+#[kani::unwind(6)]
+fn c04_serial_ttl_canonical_is_wire_order() {
+    let x: u32 = kani::any();
+    let y: u32 = kani::any();
+    let wx = x.to_be_bytes();
+    let wy = y.to_be_bytes();
+    let want = lex_cmp(&wx, &wy, false);
+    assert!(Serial(x).canonical_cmp(&Serial(y)) == want);
+    let mut bx = FixedBuf::<4> { data: [0; 4], len: 0 };
+    Serial(x).compose(&mut bx).unwrap();
+    assert!(bx.data == wx);
+    let (tx, ty) = (Ttl::from_secs(x), Ttl::from_secs(y));
+    assert!(tx.cmp(&ty) == want);
+    assert!((tx == ty) == (x == y));
+    kani::cover!(want == Ordering::Less && y.wrapping_sub(x) > 0x8000_0000, "wire order differs from serial arithmetic");
+}
